@@ -51,10 +51,85 @@ def ref_agrees(e, p, isa):
     return False
 
 
+from collections import defaultdict
+from ruamel.yaml import YAML
+
+
+def same_scalar(a, b):
+    if isinstance(a, str) and isinstance(b, str):
+        return a.lower() == b.lower()
+    return a == b and type(a) is type(b) or (a in (None, False) and b in (None, False))
+
+
+def reg_pattern(v):
+    """a base/index pattern of a table entry: a class name or a dict {name|prefix: ...} or None / '*'"""
+    if isinstance(v, dict):
+        return v.get("name") or v.get("prefix")
+    return v
+
+
+def fidelity(raw, loaded):
+    """problems of one loaded operand pattern against the plain-YAML operand it was loaded from"""
+    cls = {"register": RegisterOperand, "memory": MemoryOperand, "immediate": ImmediateOperand, "identifier": IdentifierOperand,
+           "condition": ConditionOperand, "prfop": PrefetchOperand}.get(raw.get("class"))
+    if cls is None:
+        return []
+    if not isinstance(loaded, cls):
+        return [f"class {raw.get('class')} loaded as {type(loaded).__name__}"]
+    bad = []
+    if cls is RegisterOperand:
+        for k in ("name", "prefix", "shape"):
+            if k in raw and not same_scalar(raw[k], getattr(loaded, k)):
+                bad.append(f"{k}: {raw[k]!r} loaded as {getattr(loaded, k)!r}")
+    if cls is MemoryOperand:
+        for k in ("base", "index"):
+            lv = getattr(loaded, k)
+            lv = (lv.name or lv.prefix) if isinstance(lv, RegisterOperand) else lv
+            if not same_scalar(reg_pattern(raw.get(k)), lv):
+                bad.append(f"{k}: {raw.get(k)!r} loaded as {lv!r}")
+        for k in ("offset", "scale"):
+            lv = getattr(loaded, k)
+            if not same_scalar(raw.get(k), lv) and not (isinstance(lv, (ImmediateOperand, IdentifierOperand)) and raw.get(k) in ("imd", "id")):
+                bad.append(f"{k}: {raw.get(k)!r} loaded as {lv!r}")
+        for k in ("pre_indexed", "post_indexed"):
+            if not same_scalar(raw.get(k, False), getattr(loaded, k)):
+                bad.append(f"{k}: {raw.get(k, False)!r} loaded as {getattr(loaded, k)!r}")
+    if cls is ImmediateOperand and not same_scalar(raw.get("imd"), loaded.imd_type):
+        bad.append(f"imd: {raw.get('imd')!r} loaded as {loaded.imd_type!r}")
+    if cls is ConditionOperand and not same_scalar(raw.get("ccode"), loaded.ccode):
+        bad.append(f"ccode: {raw.get('ccode')!r} loaded as {loaded.ccode!r}")
+    return bad
+
+
 for arch in MODELS:
     mm = MachineModel(arch=arch)
     isa = mm.get_ISA()
     by_name = mm["instruction_forms_dict"]
+    # ---- loader fidelity: per mnemonic the loaded entries are the file's entries IN FILE ORDER (alias lists expanded in place)
+    # with the operand patterns as written ("the first matching entry in file order supplies the data")
+    ypath = os.path.join(os.path.expanduser("~"), ".osaca", "data", arch + ".yml")
+    raw = YAML(typ="safe").load(open(ypath))
+    want_by_name = defaultdict(list)
+    for f in raw["instruction_forms"]:
+        for nm in (f["name"] if isinstance(f["name"], list) else [f["name"]]):
+            want_by_name[nm.upper()].append(f)
+    for name, wl in want_by_name.items():
+        ll = by_name.get(name, [])
+        R.case(("loader", arch, name), nontrivial=len(wl) > 1, sample=dict(arch=arch, loader=name, entries=len(wl)))
+        if len(ll) != len(wl):
+            R.fail("C07/loader/entry-count", f"C07:loader-count:{arch}", f"{arch} {name}: {len(wl)} entries in the file, {len(ll)} after loading", dict(arch=arch, mnemonic=name))
+            continue
+        for i, (f, e) in enumerate(zip(wl, ll)):
+            rops = f.get("operands") or []
+            if len(rops) != len(e.operands):
+                R.fail("C07/loader/file-order", f"C07:loader-order:{arch}", f"{arch} {name}: entry #{i} in file order has {len(rops)} operands, loaded entry #{i} has {len(e.operands)} (entries reordered?)", dict(arch=arch, mnemonic=name))
+                break
+            probs = [p_ for ro, lo in zip(rops, e.operands) for p_ in fidelity(ro, lo)]
+            same_data = (f.get("throughput"), f.get("latency")) == (e.throughput, e.latency)
+            if probs or not same_data:
+                what = "; ".join(probs[:3]) or f"throughput/latency {(f.get('throughput'), f.get('latency'))} vs {(e.throughput, e.latency)} (entries reordered?)"
+                R.fail("C07/loader/" + ("pattern" if probs else "file-order"), f"C07:loader-{'pattern' if probs else 'order'}:{arch}", f"{arch} {name} entry #{i}: {what}", dict(arch=arch, mnemonic=name))
+                break
     for name, entries in by_name.items():
         for e in entries:
             ops = [synth(o, isa) for o in e.operands]
